@@ -128,3 +128,8 @@ C03 = codec_check("C03", "C03", "model_checking",
     rule="differential check against an independent reference codec pair (mc/ref/refjson, mc/ref/refror2) over the C01 case space: (lib-to-ref) every library encoding must parse under the strict reference parser of its format/context and denote the same abstract value; (ref-to-lib) the reference encoding of every value, and for the reduced alphabets every document variant (key permutations, unknown fields, whitespace, alternative escapes), must be accepted by the library reader and yield the value; states = values, transitions = encode or decode calls; a class is (direction, outcome, format, variant family)",
     assumptions=["the reference codecs are my reading of the Rest.li 2.0 wire rules: keys are escaped like strings; bytes/fixed are strings of code points <= U+00FF in JSON and ROR2; a null union is JSON null / the empty map in ROR2",
                  "request/response envelopes are checked by the wire-level checks, not here"])
+
+C10 = codec_check("C10", "C10", "model_checking",
+    rule="for every wrapper record: the pool of all reduced-alphabet deviation<=1 values, their copies, copies with maps rebuilt in every insertion order, nil<->empty swaps and JSON/ROR2 round-tripped copies; every ordered pair is compared with the generated Equals (must coincide with structural equality, which is an equivalence, hence symmetry and transitivity), and Equal pairs must have equal ComputeHash; hashes of a common sub-pool are compared across all shard processes; states = pool values, transitions = Equals calls; a class is the pair outcome",
+    assumptions=["pairs containing a NaN are only checked for totality (NaN never equals itself)",
+                 "transitivity follows from agreement with the reference equivalence on every pair of the pool; triples are not enumerated separately"])
